@@ -3,6 +3,7 @@ package checks
 import (
 	"fmt"
 	"sort"
+	"strings"
 	"sync"
 
 	"verif/ev"
@@ -76,6 +77,14 @@ func c06Paths() []pathSpec {
 				m["x"] = *v
 			}
 			return val.Item{"m": val.V{T: "M", M: m}}
+		}},
+		// an attribute name made of the boundary characters of the identifier classes
+		{"azAZ_09", "azAZ_09", nil, func(v *val.V) val.Item {
+			it := val.Item{"az": val.S("decoy"), "azAZ": val.S("decoy")}
+			if v != nil {
+				it["azAZ_09"] = *v
+			}
+			return it
 		}},
 		// a name placeholder stands for one attribute name, dots included: the attribute "d.e" is not
 		// the member e of a map d (which the item also holds, with another value)
@@ -339,6 +348,13 @@ func c06Atoms(thorough bool, emit func(c06case)) {
 		{val.M("k", val.L(val.S("x"))), val.M("k", val.L(val.S("y")))}, {val.L(val.S("x"), val.S("y")), val.L(val.S("y"), val.S("x"))},
 		{val.M("a", val.S("1"), "b", val.S("2")), val.M("b", val.S("2"), "a", val.S("1"))}, {val.L(), val.L()}, {val.M(), val.M()}, {val.S(""), val.S("")},
 		{val.L(val.Null()), val.L(val.Null())}, {val.Bool(false), val.Bool(false)}, {val.Null(), val.Null()},
+		// sets of one type: same size with other members, proper subset and superset, overlap
+		{val.SS("a", "b"), val.SS("a", "c")}, {val.SS("a"), val.SS("a", "b")}, {val.SS("a", "b"), val.SS("a")},
+		{val.NS("1", "2"), val.NS("1", "3")}, {val.NS("1"), val.NS("1", "2")}, {val.NS("1", "2"), val.NS("1")}, {val.NS("1.0", "2"), val.NS("2.00", "1")},
+		{val.BS([]byte{1}, []byte{2}), val.BS([]byte{1}, []byte{3})}, {val.BS([]byte{1}), val.BS([]byte{1}, []byte{2})}, {val.BS([]byte{1}, []byte{2}), val.BS([]byte{1})},
+		// sets nested in documents, members written in another order
+		{val.M("k", val.SS("a", "b")), val.M("k", val.SS("b", "a"))}, {val.M("k", val.NS("1", "2")), val.M("k", val.NS("2", "1"))}, {val.M("k", val.BS([]byte{1}, []byte{2})), val.M("k", val.BS([]byte{2}, []byte{1}))},
+		{val.L(val.BS([]byte{1}, []byte{2})), val.L(val.BS([]byte{2}, []byte{1}))}, {val.L(val.SS("a", "b")), val.L(val.SS("a", "c"))},
 	} {
 		item := val.Item{"a": c.a}
 		emit(c06case{fmt.Sprintf("structural(=)#%d:%s", i, c.a.T), rx.Eq("a", ":v"), item, nil, map[string]val.V{":v": c.v}})
@@ -424,6 +440,21 @@ func C06(run *ev.Run, tier string) map[string]interface{} {
 		leaves = 4
 	}
 	c06Compound(leaves, func(c c06case) { cases = append(cases, c) })
+	// the same expressions with other white space between the tokens (tab, newline, carriage
+	// return + newline, two blanks): the truth value does not depend on it
+	{
+		n := len(cases)
+		for i := 0; i < n; i++ {
+			if !thorough && !strings.HasPrefix(cases[i].form, "compound") && i%7 != 0 {
+				continue // quick: every compound tree and every seventh atom
+			}
+			for _, ws := range []string{"\t", "\n", "\r\n", "  "} {
+				c := cases[i]
+				c.form += "|ws=" + ws
+				cases = append(cases, c)
+			}
+		}
+	}
 
 	var mu sync.Mutex
 	hist := map[string]int{}
@@ -439,6 +470,10 @@ func C06(run *ev.Run, tier string) map[string]interface{} {
 			defer wg.Done()
 			for c := range ch {
 				expr := c.cond.String()
+				if i := strings.Index(c.form, "|ws="); i >= 0 {
+					expr = strings.ReplaceAll(expr, " ", c.form[i+4:])
+					c.form = c.form[:i] // (signatures do not distinguish the white space)
+				}
 				ev.SetInFlight(w, "Language.Match "+expr+" item "+c.item.CanonText()+" values "+fmt.Sprint(c.values))
 				mask := c.cond.Eval(rx.Env{Item: c.item, Names: c.names, Values: c.values})
 				before := c.item.CanonText()
@@ -503,7 +538,7 @@ func C06(run *ev.Run, tier string) map[string]interface{} {
 		"evaluations":         len(cases) * rounds,
 		"distinct_nontrivial": len(distinct),
 		"distinct_forms":      len(forms),
-		"rule":                "every atomic condition form (6 comparators over path/value, value/path, path/path, value/value; BETWEEN; IN with 1-3 members; attribute_exists, attribute_not_exists, attribute_type, begins_with, contains, size) x every path spelling (a, #a, m.x, m.#x, #d naming the attribute \"d.e\" next to a map d, m.#k naming the key \"x.y\", l[0], l[1], m.l[0].x and never-resolving paths) x every typing of the operands with the ten types and absence (two or three values per type), plus every boolean tree with up to N leaves over NOT/AND/OR/parentheses printed with minimal parentheses; a case is distinct by (expression text, item, bindings); evaluated directly on interpreter.Language.Match against the reference three-valued evaluator with acceptance sets",
+		"rule":                "every atomic condition form (6 comparators over path/value, value/path, path/path, value/value; BETWEEN; IN with 1-3 members; attribute_exists, attribute_not_exists, attribute_type, begins_with, contains, size) x every path spelling (a, #a, azAZ_09, m.x, m.#x, #d naming the attribute \"d.e\" next to a map d, m.#k naming the key \"x.y\", l[0], l[1], m.l[0].x and never-resolving paths) x every typing of the operands with the ten types and absence (two or three values per type), plus every boolean tree with up to N leaves over NOT/AND/OR/parentheses printed with minimal parentheses; the compound trees and every seventh atom (thorough: all) once more with tab / newline / CR LF / two blanks as white space; a case is distinct by (expression text, item, bindings); evaluated directly on interpreter.Language.Match against the reference three-valued evaluator with acceptance sets",
 		"samples":             samples,
 		"exhaustive":          true,
 		"outcome_histogram":   hist,
